@@ -432,6 +432,21 @@ func c09present(x *X, s *lifeSlot, chunk int, hist string, modified, restarted b
 			if exp == "ok" && ok && modified {
 				x.Probe("must-succeed-after-additions")
 			}
+			if exp == "ok" && ok && key == sg.key && !isLib {
+				// the same envelope as another producer would have written it: other member order,
+				// white space and escape style. What was signed has not changed.
+				if re, err := Reencode(Marshal(s.env), int64(len(hist))*31+int64(key), false); err == nil {
+					x.rawPresent = re
+					ok2, detail2, panicked2 := verifyVia(x, ep, s.env, key, chunk)
+					x.rawPresent = nil
+					x.Probe("presented-re-encoded")
+					if panicked2 {
+						x.Violate("verify-panic:"+ep, "entry point %s panicked on a re-encoded envelope: %s\n  history: %s", ep, detail2, hist)
+					} else if !ok2 {
+						x.Violate("rejects-signed:"+ep+":re-encoded", "entry point %s accepts the envelope as this library writes it but refuses the same envelope re-encoded (member order, white space, escape style): %s\n  history: %s", ep, trunc(detail2, 300), hist)
+					}
+				}
+			}
 			if exp == "fail" && !ok {
 				switch {
 				case key == other || key == impostor || key == otherNoKid || key == nilKey:
